@@ -1,15 +1,23 @@
 #!/bin/bash
 # mut.sh <patch.diff> <property-id>... : run checks against /repo with the patch applied, then undo it.
+# With MUT_WT=<scratch worktree of /repo> the patch is applied there instead and the checks read that tree (CVA_REPO),
+# writing their evidence to a throw-away directory; several such runs can go on side by side.
 P=$(readlink -f "$1"); shift
-cd /repo || exit 2
-if ! git diff --quiet; then echo "/repo has local changes; refusing"; exit 2; fi
+T=${MUT_WT:-/repo}
+O=${MUT_OUT:-/tmp}
+cd $T || exit 2
+if ! git diff --quiet; then echo "$T has local changes; refusing"; exit 2; fi
 git apply "$P" || { echo "patch does not apply"; exit 2; }
 cd /verif
 rc=0
 for id in "$@"; do
-  ./check "$id" --tier "${TIER:-quick}" > /tmp/mut.$id.out 2>&1; r=$?
-  n=$(grep -c '^VIOLATION' /tmp/mut.$id.out)
+  if [ "$T" = /repo ]; then
+    ./check "$id" --tier "${TIER:-quick}" > $O/mut.$id.out 2>&1; r=$?
+  else
+    CVA_REPO=$T CVA_EVIDENCE_DIR=$O/evidence ./check "$id" --tier "${TIER:-quick}" > $O/mut.$id.out 2>&1; r=$?
+  fi
+  n=$(grep -c '^VIOLATION' $O/mut.$id.out)
   echo "$id exit=$r violations=$n"
-  grep -B1 '^VIOLATION' /tmp/mut.$id.out | grep -v '^VIOLATION' | grep -v '^--' | cut -c1-400 | head -${SHOW:-4}
+  grep -B1 '^VIOLATION' $O/mut.$id.out | grep -v '^VIOLATION' | grep -v '^--' | cut -c1-400 | head -${SHOW:-4}
 done
-git -C /repo checkout -- .
+git -C $T checkout -- .
